@@ -21,6 +21,10 @@ pub struct Case {
     /// representation noise for the value handed to geo (0 = none): a repeated vertex, an empty member
     #[serde(default)]
     pub noise: u64,
+    /// `g` is a collection of individually valid members of possibly different dimensions, which may overlap (point
+    /// location and distance are those of the union)
+    #[serde(default)]
+    pub mixed: bool,
     #[serde(skip)]
     pub trusted: bool,
 }
@@ -76,7 +80,7 @@ impl Property for C12 {
     type Case = Case;
     const ID: &'static str = "C12";
     fn strategy(_tier: Tier) -> BoxedStrategy<Case> {
-        (scene_strategy(3), proptest::collection::vec((0u8..=255, 0u8..=255, any::<bool>()), 1..8), xf_strategy(), prop_oneof![2 => Just(0u64), 1 => any::<u64>()])
+        (scene_strategy(3), proptest::collection::vec((0u8..=255, 0u8..=255, any::<bool>()), 1..8), xf_strategy(), prop_oneof![1 => Just(0u64), 1 => any::<u64>()])
             .prop_map(|(Scene { a, partners }, qs, xf, noise)| {
                 // query points: lattice points of the grown bbox, and features of the partner geometries (coincidence bias)
                 let bb = a.bbox().unwrap_or(((0, 0), (4, 4)));
@@ -92,7 +96,13 @@ impl Property for C12 {
                         }
                     })
                     .collect();
-                Case { g: a, queries, xf, noise, trusted: true }
+                // 1 case in 5: the geometry and its partners together, as one collection of mixed dimensions
+                if noise % 5 == 1 {
+                    let mut members = vec![a];
+                    members.extend(partners);
+                    return Case { g: G::Coll(members), queries, xf, noise: 0, mixed: true, trusted: true };
+                }
+                Case { g: a, queries, xf, noise, mixed: false, trusted: true }
             })
             .boxed()
     }
@@ -113,15 +123,25 @@ impl Property for C12 {
         vec!["for line work and points interior_point only has to lie on the geometry (the documentation returns a vertex or an end point)".into()]
     }
     fn must_hit() -> Vec<&'static str> {
-        vec!["query:inside", "query:on-boundary", "query:outside", "has-hole", "hole-tangent", "concave"]
+        vec!["query:inside", "query:on-boundary", "query:outside", "has-hole", "hole-tangent", "concave", "mixed-dimension-collection"]
     }
     fn show(c: &Case) -> Value {
         json!({"g": wkt(&c.g), "queries": c.queries, "xf": c.xf})
     }
     fn check(c: &Case, obs: &mut Obs) {
-        if !c.trusted && !in_relate_domain(&c.g) {
+        let member_ok = |g: &G| match g { G::Coll(v) if c.mixed => v.iter().all(in_relate_domain), g => in_relate_domain(g) };
+        if !c.trusted && !member_ok(&c.g) {
             obs.label("skipped:out-of-domain");
             return;
+        }
+        if c.mixed {
+            let mut dims = [false; 3];
+            if let G::Coll(v) = &c.g {
+                for m in v { let d = m.dim(); if d >= 0 { dims[d as usize] = true; } }
+            }
+            if dims.iter().filter(|d| **d).count() >= 2 {
+                obs.label("mixed-dimension-collection");
+            }
         }
         let tn = c.g.type_name();
         obs.label(format!("type:{tn}"));
